@@ -990,6 +990,9 @@ class HOCRConverter(PDFConverter[AnyIO]):
                 )
                 for child in item:
                     render(child)
+                if self.within_chars:
+                    # the last word of the page belongs to this page
+                    self.write_word()
                 self.write("</div>\n")
             elif isinstance(item, LTTextLine):
                 self.write(
